@@ -9,12 +9,22 @@ from .interp import Native, Z, XR, POS_INF, NEG_INF, to_real, OutOfSubset, PyRai
 from .explog import EXP, LOG
 
 
+class NullContext:
+    pyvc_null_context = True
+
+
 class NumpyStub:
     """np.exp / np.log / np.log1p / np.expm1 / np.log2 / np.inf on mathematical (extended) reals."""
 
     def __pyvc_getattr__(self, interp, name, node):
         if name == "inf":
             return POS_INF
+        if name == "errstate":
+            return Native("np.errstate", lambda i2, a, k: NullContext())
+        if name in ("multiply", "add"):
+            import ast as _ast
+            op = _ast.Mult() if name == "multiply" else _ast.Add()
+            return Native("np." + name, lambda i2, a, k, op=op: i2.binop(op, a[0], a[1]))   # scalars; fixed-width wrap of int64 is NOT modelled (A1)
         if name in ("exp", "log", "log1p", "log2", "expm1"):
             return Native("np." + name, getattr(self, "_" + name))
         raise OutOfSubset("numpy." + name)
